@@ -490,6 +490,8 @@ def imax(a, b):
 # axioms, written with the dual functions so they can be tested against CPython
 
 class Axiom(object):
+    heavy = False
+
     def __init__(self, name, sorts, body, pats, domain=None, small=False, fit=None):
         self.small = small      # all integer arguments are size-like (test with small values)
         self.fit = fit          # optional lambda r, vals -> vals : steers random test values into the domain
@@ -572,6 +574,26 @@ def _(s, lo, hi, i):
        domain=lambda s, lo, hi: lo == 0 and hi == len(s))
 def _(s, lo, hi):
     return Implies_(And_(eq(lo, 0), eq(hi, blen(s))), beq(slc(s, lo, hi), s))
+
+
+@axiom("slc_cat_left", ["bytes", "bytes", "int", "int"], lambda a, b, lo, hi: [slc(_cat2(a, b), lo, hi)],
+       domain=lambda a, b, lo, hi: 0 <= lo <= hi <= len(a))
+def _(a, b, lo, hi):
+    return Implies_(And_(0 <= lo, lo <= hi, hi <= blen(a)), beq(slc(_cat2(a, b), lo, hi), slc(a, lo, hi)))
+
+
+@axiom("slc_cat_right", ["bytes", "bytes", "int", "int"], lambda a, b, lo, hi: [slc(_cat2(a, b), lo, hi)],
+       domain=lambda a, b, lo, hi: len(a) <= lo <= hi <= len(a) + len(b))
+def _(a, b, lo, hi):
+    return Implies_(And_(blen(a) <= lo, lo <= hi, hi <= blen(a) + blen(b)),
+                    beq(slc(_cat2(a, b), lo, hi), slc(b, lo - blen(a), hi - blen(a))))
+
+
+@axiom("slc_slc", ["bytes", "int", "int", "int", "int"], lambda s, a, b, c, d: [slc(slc(s, a, b), c, d)],
+       domain=lambda s, a, b, c, d: 0 <= a <= b <= len(s) and 0 <= c <= d <= b - a)
+def _(s, a, b, c, d):
+    return Implies_(And_(0 <= a, a <= b, b <= blen(s), 0 <= c, c <= d, d <= b - a),
+                    beq(slc(slc(s, a, b), c, d), slc(s, a + c, a + d)))
 
 
 @axiom("unit_def", ["int"], lambda c: [unit(c)], domain=lambda c: 0 <= c <= 255, small=True)
@@ -690,6 +712,12 @@ def _(s, lo, hi):
                     eq(be(slc(s, lo, hi)), be(s)))
 
 
+@axiom("be_cat_zero", ["bytes"], lambda b: [_cat2(unit(0), b)])
+def _(b):
+    # a leading zero octet does not change the value (constructor form of be_strip)
+    return eq(be(_cat2(unit(0), b)), be(b))
+
+
 @axiom("be_prefix", ["bytes", "int", "int"], lambda s, lo, hi: [be(slc(s, lo, hi))],
        domain=lambda s, lo, hi: lo == 0 and 0 <= hi <= len(s))
 def _(s, lo, hi):
@@ -722,8 +750,11 @@ def pow2_facts(t):
     return z3.And(*[z3.Implies(t == c, POW2(t) == 2 ** c) for c in list(range(0, 17)) + [24, 32, 40, 48, 56, 64]])
 
 
-def base_axioms():
-    return _beq_axioms() + [a.term() for a in AXIOMS]
+HEAVY = {"pow2_mono", "be_msb", "bytelen_mono"}     # quadratic multi-patterns / nonlinear bodies
+
+
+def base_axioms(heavy=True):
+    return _beq_axioms() + [a.term() for a in AXIOMS if heavy or a.name not in HEAVY]
 
 
 # ----------------------------------------------------------------------------
